@@ -866,9 +866,13 @@ class Runner:
                 pts = pts[keep]
         return [pts, pts] if pts.size else []
 
-    def _adaptive_exc_cls(self, exc, batches):
+    def _adaptive_exc_cls(self, exc, batches, variants=None):
         """Class string of an exception raised inside an adaptive update."""
-        fires = self._sim_fires(batches) or []
+        fires = []
+        for bt in ([batches] + list(variants or [])):
+            fires = self._sim_fires(bt) or []
+            if any(f[0] in ("overrun", "tiny", "degenerate") or f[1] == "tiny" for f in fires):
+                break
         bad = [f for f in fires if f[0] in ("overrun", "tiny", "degenerate") or f[1] == "tiny"]
         lower, upper = (bad or fires or [("unknown", "unknown")])[0 if bad else -1]
         pend = list(self._peek or [])
@@ -989,7 +993,8 @@ class Runner:
         shape = {"scalar": "0d", "list": "list", "1d": "1d", "2d": "2d"}[s["shape"]]
         pair = f"{self.lo}/{self.hi}"
         dx_args = fd_dx(n, eps, scale)
-        dxs = [fd_dx(n, 1e-16, 1.0)] if direct else [dx_args]
+        # without a table the step comes from epsilon/scale (older trees ignored them there): both accepted
+        dxs = sorted({fd_dx(n, 1e-16, 1.0), dx_args}) if direct else [dx_args]
         self.lab(f"shape:{shape}", f"deriv-region:{region}", f"deriv-order:{n}")
         want_err = self._expects_error(below, above, direct)
         has_out = region in ("mixed", "below", "above", "bothout")
@@ -1038,7 +1043,9 @@ class Runner:
                 return
             if _exc_through(exc, "_adaptiveInterpolationUpdate"):
                 self.fail("table-build-exception",
-                          self._adaptive_exc_cls(exc, self._deriv_sim_batches(tab0, xa, n, dxs[0], below, above, direct)),
+                          self._adaptive_exc_cls(
+                              exc, self._deriv_sim_batches(tab0, xa, n, dxs[0], below, above, direct),
+                              [self._deriv_sim_batches(tab0, xa, n, dx, below, above, direct) for dx in dxs[1:]]),
                           f"adaptive update raised {type(exc).__name__}: {exc}")
                 return
             sub = "out-of-range-exception" if has_out else "inside-exception"
@@ -1656,10 +1663,10 @@ def draw_derivative(draw, r):
                 if slug and _switch(slug):
                     bad = slug
         elif direct and r.adaptive:
-            slug = _predict_bad_update(
-                r, r._deriv_sim_batches(tab, xa, n, fd_dx(n, 1e-16, 1.0), below, above, direct))
-            if slug and _switch(slug):
-                bad = slug
+            for dxc in sorted({fd_dx(n, 1e-16, 1.0), dx}):
+                slug = _predict_bad_update(r, r._deriv_sim_batches(tab, xa, n, dxc, below, above, direct))
+                if slug and _switch(slug):
+                    bad = slug
         if bad is None:
             break
         avoided.append(bad)
